@@ -343,8 +343,855 @@ theorem einit_ok (base : List (Bytes × Var)) : StOK base (einit base) := by
     | zero =>
       simp only [List.getElem?_cons_zero, Option.some.injEq] at hs
       subst hs
-      exact ⟨by intro p e; cases e, by intro e; cases e⟩
+      exact ⟨(by intro p e; cases e), (by intro e; cases e)⟩
     | succ k => simp at hs
   · refine ⟨by simp [einit, allocScope], (by intro w hw; cases hw), (by intro r hr; cases hr), by intro o ho; cases ho⟩
+
+/-! ## Part B — frames on the word heap -/
+
+/-- sizes of the three heap components at the moment a function is entered -/
+structure Sizes where
+  w : Nat
+  b : Nat
+  a : Nat
+
+def sizesOf (h : Heap) : Sizes := ⟨h.words.length, h.braces.length, h.parr.length⟩
+
+/-- frame: the first `n.*` words, braces and arrays are untouched -/
+structure HFr (n : Sizes) (h h' : Heap) : Prop where
+  words : ListFr n.w h.words h'.words
+  braces : ListFr n.b h.braces h'.braces
+  parr : ListFr n.a h.parr h'.parr
+
+/-- objects created since entry hold only storage allocated since entry, and braces created since
+    entry only list words created since entry -/
+structure HInv (n : Sizes) (h : Heap) : Prop where
+  owned : ∀ w, n.w ≤ w → Owned n.a (wordAt h w)
+  elems : ∀ b, n.b ≤ b → ∀ x ∈ (braceAt h b).elems, n.w ≤ x
+
+theorem HFr.refl {n : Sizes} {h : Heap} (hw : n.w ≤ h.words.length) (hb : n.b ≤ h.braces.length)
+    (ha : n.a ≤ h.parr.length) : HFr n h h := ⟨ListFr.refl hw, ListFr.refl hb, ListFr.refl ha⟩
+
+theorem HFr.trans {n : Sizes} {a b c : Heap} (x : HFr n a b) (y : HFr n b c) : HFr n a c :=
+  ⟨x.words.trans y.words, x.braces.trans y.braces, x.parr.trans y.parr⟩
+
+structure Good (n : Sizes) (h0 h : Heap) : Prop where
+  fr : HFr n h0 h
+  inv : HInv n h
+
+theorem Good.lw {n h0 h} (g : Good n h0 h) : n.w ≤ h.words.length := g.fr.words.1
+theorem Good.lb {n h0 h} (g : Good n h0 h) : n.b ≤ h.braces.length := g.fr.braces.1
+theorem Good.la {n h0 h} (g : Good n h0 h) : n.a ≤ h.parr.length := g.fr.parr.1
+
+theorem wordAt_setWord (h : Heap) (w w' : Nat) (s : Slice) :
+    wordAt (setWord h w s) w' = if w' = w ∧ w < h.words.length then s else wordAt h w' := by
+  unfold wordAt setWord
+  simp only [List.getElem?_set]
+  by_cases e : w = w'
+  · subst e
+    by_cases hl : w < h.words.length
+    · simp [hl]
+    · simp [hl]
+  · have e' : ¬ w' = w := fun x => e x.symm
+    simp [e, e']
+
+theorem braceAt_setWord (h : Heap) (w : Nat) (s : Slice) (b : Nat) : braceAt (setWord h w s) b = braceAt h b := rfl
+
+theorem braceAt_setBrace (h : Heap) (b b' : Nat) (o : BraceObj) :
+    braceAt (setBrace h b o) b' = if b' = b ∧ b < h.braces.length then o else braceAt h b' := by
+  unfold braceAt setBrace
+  simp only [List.getElem?_set]
+  by_cases e : b = b'
+  · subst e
+    by_cases hl : b < h.braces.length
+    · simp [hl]
+    · simp [hl]
+  · have e' : ¬ b' = b := fun x => e x.symm
+    simp [e, e']
+
+theorem good_setWord {n h0 h} (g : Good n h0 h) {w : Nat} {s : Slice} (hw : n.w ≤ w) (ho : Owned n.a s) :
+    Good n h0 (setWord h w s) := by
+  refine ⟨⟨g.fr.words.trans (listFr_set _ _ g.lw hw), g.fr.braces, g.fr.parr⟩, ⟨?_, ?_⟩⟩
+  · intro w' hw'
+    rw [wordAt_setWord]
+    split
+    · exact ho
+    · exact g.inv.owned w' hw'
+  · intro b hb x hx
+    exact g.inv.elems b hb x hx
+
+theorem good_setBrace {n h0 h} (g : Good n h0 h) {b : Nat} {o : BraceObj} (hb : n.b ≤ b) (ho : ∀ x ∈ o.elems, n.w ≤ x) :
+    Good n h0 (setBrace h b o) := by
+  refine ⟨⟨g.fr.words, g.fr.braces.trans (listFr_set _ _ g.lb hb), g.fr.parr⟩, ⟨?_, ?_⟩⟩
+  · intro w hw
+    exact g.inv.owned w hw
+  · intro b' hb' x hx
+    rw [braceAt_setBrace] at hx
+    split at hx
+    · exact ho x hx
+    · exact g.inv.elems b' hb' x hx
+
+theorem wordAt_newWord (h : Heap) (s : Slice) (w : Nat) :
+    wordAt (newWord h s).1 w = if w = h.words.length then s else wordAt h w := by
+  unfold wordAt newWord
+  simp only
+  by_cases hl : w < h.words.length
+  · rw [List.getElem?_append_left hl]
+    have : ¬ w = h.words.length := by omega
+    simp [this]
+  · rw [List.getElem?_append_right (by omega)]
+    by_cases e : w = h.words.length
+    · subst e; simp
+    · have : w - h.words.length ≠ 0 := by omega
+      cases hk : w - h.words.length with
+      | zero => exact absurd hk this
+      | succ k =>
+        simp only [List.getElem?_cons_succ, List.getElem?_nil, Option.getD_none, e, if_false]
+        rw [List.getElem?_eq_none (by omega)]
+        rfl
+
+theorem good_newWord {n h0 h} (g : Good n h0 h) {s : Slice} (ho : Owned n.a s) :
+    Good n h0 (newWord h s).1 ∧ n.w ≤ (newWord h s).2 := by
+  refine ⟨⟨⟨g.fr.words.trans (listFr_append _ _ g.lw), g.fr.braces, g.fr.parr⟩, ⟨?_, ?_⟩⟩, g.lw⟩
+  · intro w hw
+    rw [wordAt_newWord]
+    split
+    · exact ho
+    · exact g.inv.owned w hw
+  · intro b hb x hx
+    exact g.inv.elems b hb x hx
+
+theorem braceAt_newBrace (h : Heap) (es : List Nat) (b : Nat) :
+    braceAt (newBrace h es).1 b = if b = h.braces.length then { elems := es } else braceAt h b := by
+  unfold braceAt newBrace
+  simp only
+  by_cases hl : b < h.braces.length
+  · rw [List.getElem?_append_left hl]
+    have : ¬ b = h.braces.length := by omega
+    simp [this]
+  · rw [List.getElem?_append_right (by omega)]
+    by_cases e : b = h.braces.length
+    · subst e; simp
+    · cases hk : b - h.braces.length with
+      | zero => omega
+      | succ k =>
+        simp only [List.getElem?_cons_succ, List.getElem?_nil, Option.getD_none, e, if_false]
+        rw [List.getElem?_eq_none (by omega)]
+        rfl
+
+theorem good_newBrace {n h0 h} (g : Good n h0 h) {es : List Nat} (he : ∀ x ∈ es, n.w ≤ x) :
+    Good n h0 (newBrace h es).1 ∧ n.b ≤ (newBrace h es).2 := by
+  refine ⟨⟨⟨g.fr.words, g.fr.braces.trans (listFr_append _ _ g.lb), g.fr.parr⟩, ⟨?_, ?_⟩⟩, g.lb⟩
+  · intro w hw
+    exact g.inv.owned w hw
+  · intro b hb x hx
+    rw [braceAt_newBrace] at hx
+    split at hx
+    · exact he x hx
+    · exact g.inv.elems b hb x hx
+
+/-- replacing the array heap by a framed one keeps everything (Owned only looks at headers) -/
+theorem good_parr {n h0 h} (g : Good n h0 h) {parr' : ArrHeap Part} (fr : ListFr n.a h.parr parr') :
+    Good n h0 { h with parr := parr' } :=
+  ⟨⟨g.fr.words, g.fr.braces, g.fr.parr.trans fr⟩, ⟨fun w hw => g.inv.owned w hw, fun b hb x hx => g.inv.elems b hb x hx⟩⟩
+
+theorem good_appendPart {n h0 h} (gr : Grow) (g : Good n h0 h) {w : Nat} (p : Part) (hw : n.w ≤ w) :
+    Good n h0 (appendPart gr h w p) := by
+  unfold appendPart
+  have h1 := sliceAppend_fr gr h.parr (wordAt h w) p g.la (g.inv.owned w hw)
+  exact good_setWord (good_parr g h1.1) hw h1.2
+
+theorem good_appendParts {n h0 h} (gr : Grow) (g : Good n h0 h) {w : Nat} (ps : List Part) (hw : n.w ≤ w) :
+    Good n h0 (appendParts gr h w ps) := by
+  unfold appendParts
+  have h1 := sliceAppendMany_fr gr h.parr (wordAt h w) ps g.la (g.inv.owned w hw)
+  exact good_setWord (good_parr g h1.1) hw h1.2
+
+/-- invariant of the local state of `SplitBraces` -/
+structure SBInv (n : Sizes) (h0 : Heap) (st : SB) : Prop where
+  good : Good n h0 st.h
+  top : n.w ≤ st.top
+  acc : n.w ≤ st.acc
+  opn : ∀ b ∈ st.opn, n.b ≤ b
+
+theorem sb_addLit {n h0 st} (g : Grow) (i : SBInv n h0 st) (p : Part) : SBInv n h0 (addLit g st p) :=
+  ⟨good_appendPart g i.good p i.acc, i.top, i.acc, i.opn⟩
+
+theorem sb_addLitIdx {n h0 st} (g : Grow) (i : SBInv n h0 st) (v : Bytes) (last j : Nat) :
+    SBInv n h0 (addLitIdx g st v last j) := by
+  unfold addLitIdx
+  split
+  · exact i
+  · exact sb_addLit g i _
+
+theorem sb_pop {n h0 st} (i : SBInv n h0 st) {st' : SB} {old : Nat} (e : pop st = some (st', old)) :
+    SBInv n h0 st' ∧ n.b ≤ old := by
+  unfold pop at e
+  split at e
+  · cases e
+  · next old' hop =>
+    simp only [Option.some.injEq, Prod.mk.injEq] at e
+    obtain ⟨e1, e2⟩ := e
+    subst e1 e2
+    exact ⟨⟨i.good, i.top, i.top, by intro b hb; cases hb⟩, i.opn _ (by rw [hop]; exact List.mem_cons_self)⟩
+  · next old' b rest hop =>
+    split at e
+    · cases e
+    · next w hw =>
+      simp only [Option.some.injEq, Prod.mk.injEq] at e
+      obtain ⟨e1, e2⟩ := e
+      subst e1 e2
+      have hb : n.b ≤ b := i.opn b (by rw [hop]; exact List.mem_cons_of_mem _ List.mem_cons_self)
+      have hwm : w ∈ (braceAt st.h b).elems := List.mem_of_getLast? hw
+      refine ⟨⟨i.good, i.top, i.good.inv.elems b hb w hwm, ?_⟩, i.opn _ (by rw [hop]; exact List.mem_cons_self)⟩
+      intro b' hb'
+      exact i.opn b' (by rw [hop]; exact List.mem_cons_of_mem _ hb')
+
+theorem sb_addSep {n h0 st} (g : Grow) (sep : Option Part) (i : SBInv n h0 st) (first : Bool) :
+    SBInv n h0 (addSep g sep st first) := by
+  unfold addSep
+  split
+  · exact i
+  · split
+    · exact sb_addLit g i _
+    · exact i
+
+theorem sb_spliceElems {n h0} (g : Grow) (sep : Option Part) : ∀ (es : List Nat) (st : SB) (first : Bool),
+    SBInv n h0 st → SBInv n h0 (spliceElems g sep st es first) := by
+  intro es
+  induction es with
+  | nil => intro st first i; exact i
+  | cons e es ih =>
+    intro st first i
+    unfold spliceElems
+    simp only
+    apply ih
+    have i1 := sb_addSep g sep i first
+    exact ⟨good_appendParts g i1.good _ i1.acc, i1.top, i1.acc, i1.opn⟩
+
+theorem good_mergeSeq {n h0 h} (g : Grow) (gd : Good n h0 h) {b : Nat} (hb : n.b ≤ b) {h' : Heap}
+    (e : mergeSeq g h b = some h') : Good n h0 h' := by
+  unfold mergeSeq at e
+  split at e
+  · cases e
+  · next merged rest hel =>
+    simp only [Option.some.injEq] at e
+    subst e
+    have hm : n.w ≤ merged := gd.inv.elems b hb merged (by rw [hel]; exact List.mem_cons_self)
+    have hfold : ∀ (l : List Nat) (h1 : Heap), Good n h0 h1 →
+        Good n h0 (l.foldl (fun h e => appendParts g (appendPart g h merged litDots) merged (partsOf h e)) h1) := by
+      intro l
+      induction l with
+      | nil => intro h1 g1; exact g1
+      | cons x xs ih =>
+        intro h1 g1
+        simp only [List.foldl_cons]
+        exact ih _ (good_appendParts g (good_appendPart g g1 _ hm) _ hm)
+    refine good_setBrace (hfold rest h gd) hb ?_
+    intro x hx
+    simp only [List.mem_singleton] at hx
+    subst hx
+    exact hm
+
+theorem sb_unbrace {n h0 st} (g : Grow) (i : SBInv n h0 st) (elems : List Nat) (sep : Option Part) :
+    SBInv n h0 (unbrace g st elems sep) :=
+  sb_addLit g (sb_spliceElems g sep elems _ true (sb_addLit g i _)) _
+
+theorem sb_closeBrace {n h0 st} (g : Grow) (i : SBInv n h0 st) {br : Nat} (_hbr : n.b ≤ br) :
+    SBInv n h0 (closeBrace g st br) := by
+  unfold closeBrace
+  simp only
+  split
+  · exact sb_unbrace g i _ _
+  · split
+    · exact sb_addLit g i _
+    · split
+      · exact sb_addLit g i _
+      · exact sb_unbrace g i _ _
+
+theorem sb_lexLit {n h0} (g : Grow) (v : Bytes) : ∀ (fuel j last : Nat) (st : SB) (st' : SB) (last' : Nat),
+    SBInv n h0 st → lexLit g v fuel j last st = some (st', last') → SBInv n h0 st' := by
+  intro fuel
+  induction fuel with
+  | zero =>
+    intro j last st st' last' i e
+    simp only [lexLit, Option.some.injEq, Prod.mk.injEq] at e
+    rw [← e.1]; exact i
+  | succ fuel ih =>
+    intro j last st st' last' i e
+    unfold lexLit at e
+    simp only at e
+    split at e
+    · simp only [Option.some.injEq, Prod.mk.injEq] at e
+      rw [← e.1]; exact i
+    · split at e
+      · exact ih _ _ _ _ _ i e
+      · split at e
+        · -- '{'
+          have i1 := sb_addLitIdx g i v last j
+          have w1 := good_newWord i1.good (Owned.nil n.a)
+          have b1 := good_newBrace w1.1 (es := [(newWord (addLitIdx g st v last j).h).2])
+            (by intro x hx; simp only [List.mem_singleton] at hx; subst hx; exact w1.2)
+          refine ih _ _ _ _ _ ?_ e
+          refine ⟨b1.1, i1.top, w1.2, ?_⟩
+          intro b hb
+          simp only [List.mem_cons] at hb
+          rcases hb with rfl | hb
+          · exact b1.2
+          · exact i1.opn b hb
+        · split at e
+          · -- ','
+            split at e
+            · exact ih _ _ _ _ _ i e
+            · next b hcur =>
+              have hbm : b ∈ st.opn := by
+                unfold SB.cur at hcur
+                cases hop : st.opn with
+                | nil => rw [hop] at hcur; cases hcur
+                | cons x xs => rw [hop] at hcur; simp only [List.head?_cons, Option.some.injEq] at hcur; subst hcur; exact List.mem_cons_self
+              have i1 := sb_addLitIdx g i v last j
+              have hb : n.b ≤ b := i.opn b hbm
+              split at e
+              · cases e
+              · next h1 hm =>
+                have g1 : Good n h0 h1 := by
+                  split at hm
+                  · exact good_mergeSeq g i1.good hb hm
+                  · simp only [Option.some.injEq] at hm; subst hm; exact i1.good
+                have w1 := good_newWord g1 (Owned.nil n.a)
+                refine ih _ _ _ _ _ ?_ e
+                refine ⟨good_setBrace w1.1 hb ?_, i1.top, w1.2, i1.opn⟩
+                intro x hx
+                simp only [List.mem_append, List.mem_singleton] at hx
+                rcases hx with hx | rfl
+                · exact w1.1.inv.elems b hb x hx
+                · exact w1.2
+          · split at e
+            · -- '.'
+              split at e
+              · exact ih _ _ _ _ _ i e
+              · next b hcur =>
+                have hbm : b ∈ st.opn := by
+                  unfold SB.cur at hcur
+                  cases hop : st.opn with
+                  | nil => rw [hop] at hcur; cases hcur
+                  | cons x xs => rw [hop] at hcur; simp only [List.head?_cons, Option.some.injEq] at hcur; subst hcur; exact List.mem_cons_self
+                have hb : n.b ≤ b := i.opn b hbm
+                split at e
+                · exact ih _ _ _ _ _ i e
+                · split at e
+                  · exact ih _ _ _ _ _ i e
+                  · have i1 := sb_addLitIdx g i v last j
+                    have w1 := good_newWord i1.good (Owned.nil n.a)
+                    refine ih _ _ _ _ _ ?_ e
+                    refine ⟨good_setBrace w1.1 hb ?_, i1.top, w1.2, i1.opn⟩
+                    intro x hx
+                    simp only [List.mem_append, List.mem_singleton] at hx
+                    rcases hx with hx | rfl
+                    · exact w1.1.inv.elems b hb x hx
+                    · exact w1.2
+            · split at e
+              · -- '}'
+                split at e
+                · exact ih _ _ _ _ _ i e
+                · have i1 := sb_addLitIdx g i v last j
+                  split at e
+                  · cases e
+                  · next st2 br hp =>
+                    have p := sb_pop i1 hp
+                    exact ih _ _ _ _ _ (sb_closeBrace g p.1 p.2) e
+              · exact ih _ _ _ _ _ i e
+
+theorem sb_lexParts {n h0} (g : Grow) : ∀ (ps : List Part) (st st' : SB),
+    SBInv n h0 st → lexParts g st ps = some st' → SBInv n h0 st' := by
+  intro ps
+  induction ps with
+  | nil => intro st st' i e; simp only [lexParts, Option.some.injEq] at e; subst e; exact i
+  | cons p ps ih =>
+    intro st st' i e
+    cases p with
+    | lit v =>
+      unfold lexParts at e
+      split at e
+      · cases e
+      · next st1 last hl =>
+        have i1 := sb_lexLit g v _ _ _ _ _ _ i hl
+        refine ih _ _ ?_ e
+        split
+        · exact sb_addLit g i1 _
+        · exact sb_addLit g i1 _
+    | nilp => exact ih _ _ (sb_addLit g i _) (by simpa only [lexParts] using e)
+    | other t => exact ih _ _ (sb_addLit g i _) (by simpa only [lexParts] using e)
+    | brace b => exact ih _ _ (sb_addLit g i _) (by simpa only [lexParts] using e)
+
+theorem sb_closeOpen {n h0} (g : Grow) : ∀ (fuel : Nat) (st st' : SB),
+    SBInv n h0 st → closeOpen g fuel st = some st' → SBInv n h0 st' := by
+  intro fuel
+  induction fuel with
+  | zero =>
+    intro st st' i e
+    unfold closeOpen at e
+    split at e
+    · simp only [Option.some.injEq] at e; subst e; exact i
+    · cases e
+  | succ fuel ih =>
+    intro st st' i e
+    unfold closeOpen at e
+    split at e
+    · simp only [Option.some.injEq] at e; subst e; exact i
+    · split at e
+      · cases e
+      · next st1 br hp =>
+        have p := sb_pop i hp
+        exact ih _ _ (sb_spliceElems g _ _ _ _ (sb_addLit g p.1 _)) e
+
+/-- what `SplitBraces` may change of what existed: the one `Word` header it was given -/
+structure FrExcept (h h' : Heap) (w : Nat) : Prop where
+  words : ∀ i, i < h.words.length → i ≠ w → h'.words[i]? = h.words[i]?
+  wordsLen : h.words.length ≤ h'.words.length
+  braces : ListFr h.braces.length h.braces h'.braces
+  parr : ListFr h.parr.length h.parr h'.parr
+
+theorem splitBraces_good (g : Grow) (h : Heap) (w : Nat) {h' : Heap} {b : Bool}
+    (e : splitBraces g h w = some (h', b)) :
+    FrExcept h h' w ∧ (b = false → h' = h) := by
+  unfold splitBraces at e
+  simp only at e
+  split at e
+  · simp only [Option.some.injEq, Prod.mk.injEq] at e
+    rw [← e.1]
+    exact ⟨⟨fun _ _ _ => rfl, Nat.le_refl _, ListFr.refl (Nat.le_refl _), ListFr.refl (Nat.le_refl _)⟩, fun _ => rfl⟩
+  · split at e
+    · cases e
+    · next st hlex =>
+      split at e
+      · cases e
+      · next st1 hclose =>
+        simp only [Option.some.injEq, Prod.mk.injEq] at e
+        have n : Sizes := sizesOf h
+        have g0 : Good (sizesOf h) h h :=
+          ⟨HFr.refl (Nat.le_refl _) (Nat.le_refl _) (Nat.le_refl _),
+           ⟨fun w' hw' => by
+              have : wordAt h w' = Slice.nil := by
+                unfold wordAt
+                rw [List.getElem?_eq_none (by simpa [sizesOf] using hw')]
+                rfl
+              rw [this]; exact Owned.nil _,
+            fun b' hb' x hx => by
+              have : braceAt h b' = {} := by
+                unfold braceAt
+                rw [List.getElem?_eq_none (by simpa [sizesOf] using hb')]
+                rfl
+              rw [this] at hx; cases hx⟩⟩
+        have w1 := good_newWord g0 (Owned.nil _)
+        have i0 : SBInv (sizesOf h) h { h := (newWord h).1, top := (newWord h).2, acc := (newWord h).2, opn := [] } :=
+          ⟨w1.1, w1.2, w1.2, by intro b hb; cases hb⟩
+        have i1 := sb_lexParts g _ _ _ i0 hlex
+        have i2 := sb_closeOpen g _ _ _ i1 hclose
+        rw [← e.1]
+        refine ⟨⟨?_, ?_, i2.good.fr.braces, i2.good.fr.parr⟩, fun hb => by rw [← e.2] at hb; cases hb⟩
+        · intro i hi hne
+          simp only [setWord, List.getElem?_set]
+          have hne' : ¬ w = i := fun x => hne x.symm
+          simp only [hne', if_false]
+          exact i2.good.fr.words.getElem? hi
+        · simp only [setWord, List.length_set]
+          exact i2.good.fr.words.1
+
+/-! ### FieldsSeq's copy, bracesSeqRec -/
+
+theorem listFr_of_pointwise {α : Type} {n : Nat} {l l' : List α} (hl : n ≤ l.length) (hl' : n ≤ l'.length)
+    (hp : ∀ i, i < n → l'[i]? = l[i]?) : ListFr n l l' := by
+  refine ⟨hl', ?_⟩
+  apply List.ext_getElem?
+  intro i
+  simp only [List.getElem?_take]
+  split
+  · next hi => exact hp i hi
+  · rfl
+
+/-- everything that existed in `h` is still there and unchanged in `h'` -/
+def AllFr (h h' : Heap) : Prop := HFr (sizesOf h) h h'
+
+theorem good_self (h : Heap) : Good (sizesOf h) h h :=
+  ⟨HFr.refl (Nat.le_refl _) (Nat.le_refl _) (Nat.le_refl _),
+   ⟨fun w' hw' => by
+      have : wordAt h w' = Slice.nil := by
+        unfold wordAt
+        rw [List.getElem?_eq_none (by simpa [sizesOf] using hw')]
+        rfl
+      rw [this]; exact Owned.nil _,
+    fun b' hb' x hx => by
+      have : braceAt h b' = {} := by
+        unfold braceAt
+        rw [List.getElem?_eq_none (by simpa [sizesOf] using hb')]
+        rfl
+      rw [this] at hx; cases hx⟩⟩
+
+theorem fieldsSeqSplit_fr (g : Grow) (h : Heap) (w : Nat) {h' : Heap} {c : Nat} {b : Bool}
+    (e : fieldsSeqSplit g h w = some (h', c, b)) : AllFr h h' ∧ c = h.words.length := by
+  unfold fieldsSeqSplit at e
+  simp only at e
+  cases hs : splitBraces g (newWord h (wordAt h w)).1 (newWord h (wordAt h w)).2 with
+  | none => rw [hs] at e; cases e
+  | some r =>
+    rw [hs] at e
+    simp only [Option.map_some, Option.some.injEq, Prod.mk.injEq] at e
+    obtain ⟨e1, e2, e3⟩ := e
+    obtain ⟨r1, r2⟩ := r
+    simp only at e1 e3
+    subst e1 e2 e3
+    have fx := (splitBraces_good g _ _ hs).1
+    refine ⟨⟨?_, ?_, ?_⟩, rfl⟩
+    · refine listFr_of_pointwise (Nat.le_refl _) ?_ ?_
+      · have := fx.wordsLen
+        simp only [newWord, List.length_append, List.length_singleton] at this
+        simp only [sizesOf]; omega
+      · intro i hi
+        simp only [sizesOf] at hi
+        have h1 := fx.words i (by simp only [newWord, List.length_append, List.length_singleton]; omega)
+          (by simp only [newWord]; omega)
+        rw [h1]
+        simp only [newWord]
+        exact List.getElem?_append_left hi
+    · exact fx.braces
+    · exact fx.parr
+
+/-- what one alternative's `next.Parts = …` may do: allocate, and return an owned slice -/
+def MkOK (n : Sizes) (mk : Heap → Heap × Slice) : Prop :=
+  ∀ h, n.a ≤ h.parr.length →
+    (mk h).1.words = h.words ∧ (mk h).1.braces = h.braces ∧ ListFr n.a h.parr (mk h).1.parr ∧ Owned n.a (mk h).2
+
+theorem concatParts_ok (n : Sizes) (g : Grow) (h : Heap) (ps : List Part) (hn : n.a ≤ h.parr.length) :
+    (concatParts g h ps).1.words = h.words ∧ (concatParts g h ps).1.braces = h.braces ∧
+    ListFr n.a h.parr (concatParts g h ps).1.parr ∧ Owned n.a (concatParts g h ps).2 := by
+  unfold concatParts
+  split
+  · exact ⟨rfl, rfl, ListFr.refl hn, Owned.nil _⟩
+  · exact ⟨rfl, rfl, listFr_append _ _ hn, Or.inr hn⟩
+
+theorem mkOK_concat (n : Sizes) (g : Grow) (ps : Heap → List Part) : MkOK n (fun h => concatParts g h (ps h)) :=
+  fun h hn => concatParts_ok n g h (ps h) hn
+
+theorem mkOK_seq (n : Sizes) (g : Grow) (v : Bytes) (rest : List Part) :
+    MkOK n (fun h =>
+      let r0 := sliceMake h.parr [Part.lit v] 1
+      let r1 := sliceAppendMany g r0.1 r0.2 rest
+      ({ h with parr := r1.1 }, r1.2)) := by
+  intro h hn
+  have h0 := sliceMake_fr (n := n.a) h.parr [Part.lit v] 1 hn
+  have h1 := sliceAppendMany_fr g (sliceMake h.parr [Part.lit v] 1).1 (sliceMake h.parr [Part.lit v] 1).2 rest h0.1.1 h0.2
+  exact ⟨rfl, rfl, h0.1.trans h1.1, h1.2⟩
+
+theorem good_prependLeft {n h0} (g : Grow) (left : Slice) : ∀ (ws : List Nat) (h : Heap),
+    Good n h0 h → (∀ x ∈ ws, n.w ≤ x) → Good n h0 (prependLeft g left h ws) := by
+  intro ws
+  induction ws with
+  | nil => intro h gd _; exact gd
+  | cons w ws ih =>
+    intro h gd hws
+    unfold prependLeft
+    simp only
+    apply ih
+    · have mk := concatParts_ok n g h (cells h.parr left ++ partsOf h w) gd.la
+      have g1 : Good n h0 (concatParts g h (cells h.parr left ++ partsOf h w)).1 :=
+        ⟨⟨by rw [mk.1]; exact gd.fr.words, by rw [mk.2.1]; exact gd.fr.braces, gd.fr.parr.trans mk.2.2.1⟩,
+         ⟨fun w' hw' => by
+            have : wordAt (concatParts g h (cells h.parr left ++ partsOf h w)).1 w' = wordAt h w' := by
+              unfold wordAt; rw [mk.1]
+            rw [this]; exact gd.inv.owned w' hw',
+          fun b hb x hx => by
+            have : braceAt (concatParts g h (cells h.parr left ++ partsOf h w)).1 b = braceAt h b := by
+              unfold braceAt; rw [mk.2.1]
+            rw [this] at hx; exact gd.inv.elems b hb x hx⟩⟩
+      exact good_setWord g1 (hws w List.mem_cons_self) mk.2.2.2
+    · intro x hx
+      exact hws x (List.mem_cons_of_mem _ hx)
+
+/-- the induction hypothesis on the recursive call -/
+def RecOK (n : Sizes) (h0 : Heap) (rec : Heap → Nat → Option (Heap × List Nat)) : Prop :=
+  ∀ h w h' ws, Good n h0 h → rec h w = some (h', ws) → Good n h0 h' ∧ ∀ x ∈ ws, n.w ≤ x
+
+theorem good_bracesAlt {n h0} (g : Grow) {rec} (hrec : RecOK n h0 rec) (word : Nat) (left : Slice)
+    {h : Heap} (gd : Good n h0 h) {mk} (hmk : MkOK n mk) {h' : Heap} {ws : List Nat}
+    (e : bracesAlt g rec word left h mk = some (h', ws)) : Good n h0 h' ∧ ∀ x ∈ ws, n.w ≤ x := by
+  unfold bracesAlt at e
+  simp only at e
+  have m := hmk (newWord h (wordAt h word)).1 (by simp only [newWord]; exact gd.la)
+  -- the heap after `next := *word; next.Parts = …`
+  have g2 : Good n h0 (setWord (mk (newWord h (wordAt h word)).1).1 (newWord h (wordAt h word)).2 (mk (newWord h (wordAt h word)).1).2) := by
+    generalize mk (newWord h (wordAt h word)).1 = r at m
+    obtain ⟨⟨rw, rb, rp⟩, rs⟩ := r
+    simp only [newWord] at m ⊢
+    obtain ⟨m1, m2, m3, m4⟩ := m
+    subst m1 m2
+    have lw := gd.lw
+    refine ⟨⟨?_, gd.fr.braces, gd.fr.parr.trans m3⟩, ⟨?_, ?_⟩⟩
+    · simp only [setWord]
+      exact (gd.fr.words.trans (listFr_append _ _ lw)).trans
+        (listFr_set _ _ (by simp only [List.length_append, List.length_singleton]; omega) lw)
+    · intro w' hw'
+      unfold wordAt
+      simp only [setWord, List.getElem?_set]
+      split
+      · next heq =>
+        simp only [List.length_append, List.length_singleton, Nat.lt_succ_self, if_true, Option.getD_some]
+        exact m4
+      · next hne =>
+        by_cases hl : w' < h.words.length
+        · rw [List.getElem?_append_left hl]
+          exact gd.inv.owned w' hw'
+        · rw [List.getElem?_eq_none (by simp only [List.length_append, List.length_singleton]; omega)]
+          exact Owned.nil _
+    · intro b hb x hx
+      exact gd.inv.elems b hb x hx
+  split at e
+  · cases e
+  · next h3 ws3 hr =>
+    simp only [Option.some.injEq, Prod.mk.injEq] at e
+    obtain ⟨e1, e2⟩ := e
+    subst e1 e2
+    have r := hrec _ _ _ _ g2 hr
+    exact ⟨good_prependLeft g left _ _ r.1 r.2, r.2⟩
+
+theorem good_bracesAlts {n h0} (g : Grow) {rec} (hrec : RecOK n h0 rec) (word : Nat) (left : Slice) :
+    ∀ (mks : List (Heap → Heap × Slice)) (h : Heap) (h' : Heap) (ws : List Nat), Good n h0 h → (∀ mk ∈ mks, MkOK n mk) →
+    bracesAlts g rec word left h mks = some (h', ws) → Good n h0 h' ∧ ∀ x ∈ ws, n.w ≤ x := by
+  intro mks
+  induction mks with
+  | nil =>
+    intro h h' ws gd _ e
+    simp only [bracesAlts, Option.some.injEq, Prod.mk.injEq] at e
+    rw [← e.1, ← e.2]
+    exact ⟨gd, by intro x hx; cases hx⟩
+  | cons mk mks ih =>
+    intro h h' ws gd hmks e
+    unfold bracesAlts at e
+    split at e
+    · cases e
+    · next h1 ws1 ha =>
+      have a := good_bracesAlt g hrec word left gd (hmks mk List.mem_cons_self) ha
+      split at e
+      · cases e
+      · next h2 ws2 hb =>
+        simp only [Option.some.injEq, Prod.mk.injEq] at e
+        rw [← e.1, ← e.2]
+        have b := ih h1 h2 ws2 a.1 (fun m hm => hmks m (List.mem_cons_of_mem _ hm)) hb
+        refine ⟨b.1, ?_⟩
+        intro x hx
+        simp only [List.mem_append] at hx
+        rcases hx with hx | hx
+        · exact a.2 x hx
+        · exact b.2 x hx
+
+theorem good_bracesScan {n h0} (g : Grow) {rec} (hrec : RecOK n h0 rec) (word : Nat) :
+    ∀ (ps : List Part) (h : Heap) (left : Slice) (h' : Heap) (ws : List Nat), Good n h0 h → Owned n.a left →
+    bracesScan g rec word h ps left = some (h', ws) → Good n h0 h' ∧ ∀ x ∈ ws, n.w ≤ x := by
+  intro ps
+  induction ps with
+  | nil =>
+    intro h left h' ws gd ho e
+    simp only [bracesScan, Option.some.injEq, Prod.mk.injEq] at e
+    have w1 := good_newWord gd ho
+    rw [← e.1, ← e.2]
+    refine ⟨w1.1, ?_⟩
+    intro x hx
+    simp only [List.mem_singleton] at hx
+    subst hx
+    exact w1.2
+  | cons p rest ih =>
+    intro h left h' ws gd ho e
+    cases p with
+    | brace b =>
+      unfold bracesScan at e
+      simp only at e
+      split at e
+      · split at e
+        · cases e
+        · next lits hl =>
+          refine good_bracesAlts g hrec word left _ h h' ws gd ?_ e
+          intro mk hmk
+          simp only [List.mem_map] at hmk
+          obtain ⟨v, _, rfl⟩ := hmk
+          exact mkOK_seq n g v rest
+      · refine good_bracesAlts g hrec word left _ h h' ws gd ?_ e
+        intro mk hmk
+        simp only [List.mem_map] at hmk
+        obtain ⟨el, _, rfl⟩ := hmk
+        exact mkOK_concat n g (fun h => partsOf h el ++ rest)
+    | nilp =>
+      simp only [bracesScan] at e
+      have a := sliceAppend_fr g h.parr left Part.nilp gd.la ho
+      exact ih _ _ _ _ (good_parr gd a.1) a.2 e
+    | lit v =>
+      simp only [bracesScan] at e
+      have a := sliceAppend_fr g h.parr left (Part.lit v) gd.la ho
+      exact ih _ _ _ _ (good_parr gd a.1) a.2 e
+    | other t =>
+      simp only [bracesScan] at e
+      have a := sliceAppend_fr g h.parr left (Part.other t) gd.la ho
+      exact ih _ _ _ _ (good_parr gd a.1) a.2 e
+
+theorem good_bracesRec {n h0} (g : Grow) : ∀ (fuel : Nat), RecOK n h0 (bracesRec g fuel) := by
+  intro fuel
+  induction fuel with
+  | zero => intro h w h' ws _ e; simp only [bracesRec] at e; cases e
+  | succ fuel ih =>
+    intro h w h' ws gd e
+    simp only [bracesRec] at e
+    exact good_bracesScan g ih w _ _ _ _ _ gd (Owned.nil _) e
+
+/-! ### the small sites -/
+
+theorem sliceConcat_fr (h : IdHeap) (ss : List Slice) : ListFr h.length h (sliceConcat h ss).1 := by
+  unfold sliceConcat
+  simp only
+  split
+  · exact ListFr.refl (Nat.le_refl _)
+  · exact listFr_append _ _ (Nat.le_refl _)
+
+theorem listFr_weaken {α : Type} {n m : Nat} {l l' : List α} (hnm : n ≤ m) (f : ListFr m l l') : ListFr n l l' := by
+  refine ⟨by have := f.1; omega, ?_⟩
+  have : (l'.take m).take n = (l.take m).take n := by rw [f.2]
+  simpa [List.take_take, Nat.min_eq_left hnm] using this
+
+theorem aliasSplice_fr {h : IdHeap} {args als : Slice} {i : Nat} {h1 : IdHeap} {a1 : Slice}
+    (e : aliasSplice h args als i = some (h1, a1)) : ListFr h.length h h1 := by
+  unfold aliasSplice at e
+  split at e
+  · next a b _ _ =>
+    split at e
+    · simp only [Option.some.injEq] at e
+      have := sliceConcat_fr h [a, als, b]
+      rw [e] at this
+      exact this
+    · cases e
+  · cases e
+
+theorem aliasLoop_fr (tbl : List (Nat × Slice × Bool)) {n : Nat} : ∀ (fuel : Nat) (h : IdHeap) (args : Slice) (i : Nat)
+    (h' : IdHeap) (args' : Slice), n ≤ h.length → aliasLoop tbl fuel h args i = some (h', args') → ListFr n h h' := by
+  intro fuel
+  induction fuel with
+  | zero =>
+    intro h args i h' args' hn e
+    simp only [aliasLoop, Option.some.injEq, Prod.mk.injEq] at e
+    rw [← e.1]; exact ListFr.refl hn
+  | succ fuel ih =>
+    intro h args i h' args' hn e
+    unfold aliasLoop at e
+    split at e
+    · simp only [Option.some.injEq, Prod.mk.injEq] at e
+      rw [← e.1]; exact ListFr.refl hn
+    · split at e
+      · cases e
+      · split at e
+        · simp only [Option.some.injEq, Prod.mk.injEq] at e
+          rw [← e.1]; exact ListFr.refl hn
+        · split at e
+          · cases e
+          · next h1 args1 hsp =>
+            have f1 : ListFr n h h1 := listFr_weaken hn (aliasSplice_fr hsp)
+            split at e
+            · simp only [Option.some.injEq, Prod.mk.injEq] at e
+              rw [← e.1]; exact f1
+            · exact f1.trans (ih _ _ _ _ _ f1.1 e)
+
+theorem owned_len0 {n : Nat} {s : Slice} (ho : Owned n s) : Owned n { s with len := 0 } := by
+  rcases ho with ⟨_, hc⟩ | ho
+  · exact Or.inl ⟨rfl, hc⟩
+  · exact Or.inr ho
+
+theorem hdocLines_fr {n : Nat} (g : Grow) (tag : Nat) : ∀ (k : Nat) (h : IdHeap) (cur : Slice) (out : List (List Nat)) (j : Nat),
+    n ≤ h.length → Owned n cur →
+    ListFr n h (hdocLines g tag h cur out j k).1 ∧ Owned n (hdocLines g tag h cur out j k).2.1 := by
+  intro k
+  induction k with
+  | zero => intro h cur out j hn ho; exact ⟨ListFr.refl hn, ho⟩
+  | succ k ih =>
+    intro h cur out j hn ho
+    simp only [hdocLines]
+    have a := sliceAppend_fr g h { cur with len := 0 } (tag + 1000 * j) hn (owned_len0 ho)
+    have b := ih _ _ (out ++ [cells h cur]) (j + 1) a.1.1 a.2
+    exact ⟨a.1.trans b.1, b.2⟩
+
+theorem hdocSplit_fr {n : Nat} (g : Grow) : ∀ (parts : List (Nat × Nat)) (h : IdHeap) (cur : Slice) (out : List (List Nat)),
+    n ≤ h.length → Owned n cur →
+    ListFr n h (hdocSplit g h cur out parts).1 ∧ Owned n (hdocSplit g h cur out parts).2.1 := by
+  intro parts
+  induction parts with
+  | nil => intro h cur out hn ho; exact ⟨ListFr.refl hn, ho⟩
+  | cons p parts ih =>
+    intro h cur out hn ho
+    obtain ⟨tag, k⟩ := p
+    simp only [hdocSplit]
+    have a := sliceAppend_fr g h cur tag hn ho
+    have b := hdocLines_fr g tag (k - 1) _ _ out 1 a.1.1 a.2
+    have c := ih _ _ (hdocLines g tag (sliceAppend g h cur tag).1 (sliceAppend g h cur tag).2 out 1 (k - 1)).2.2 b.1.1 b.2
+    exact ⟨(a.1.trans b.1).trans c.1, c.2⟩
+
+theorem flattenField_fr (h : AHeap) (hasEq : Bool) :
+    ListFr h.assigns.length h.assigns (flattenField h hasEq).1.assigns ∧ (flattenField h hasEq).2 = h.assigns.length := by
+  unfold flattenField
+  simp only
+  have l1 : ListFr h.assigns.length h.assigns (h.assigns ++ [({} : AssignObj)]) := listFr_append _ _ (Nat.le_refl _)
+  split
+  · exact ⟨(l1.trans (listFr_set _ _ l1.1 (Nat.le_refl _))).trans (listFr_set _ _ (by simp) (Nat.le_refl _)), rfl⟩
+  · exact ⟨(l1.trans (listFr_set _ _ l1.1 (Nat.le_refl _))).trans (listFr_set _ _ (by simp) (Nat.le_refl _)), rfl⟩
+
+theorem flattenAssigns_fr (fields : Nat → List Bool) {n : Nat} : ∀ (args : List Nat) (h : AHeap), n ≤ h.assigns.length →
+    ListFr n h.assigns (flattenAssigns fields h args).1.assigns ∧
+    ∀ x ∈ (flattenAssigns fields h args).2, x ∈ args ∨ n ≤ x := by
+  intro args
+  induction args with
+  | nil => intro h hn; exact ⟨ListFr.refl hn, by intro x hx; cases hx⟩
+  | cons a rest ih =>
+    intro h hn
+    unfold flattenAssigns
+    split
+    · have r := ih h hn
+      refine ⟨r.1, ?_⟩
+      intro x hx
+      simp only [List.mem_cons] at hx ⊢
+      rcases hx with rfl | hx
+      · exact Or.inl (Or.inl rfl)
+      · rcases r.2 x hx with m | m
+        · exact Or.inl (Or.inr m)
+        · exact Or.inr m
+    · -- the fold over the expanded fields
+      have hfold : ∀ (fs : List Bool) (acc : AHeap × List Nat), n ≤ acc.1.assigns.length → (∀ x ∈ acc.2, n ≤ x) →
+          ListFr n acc.1.assigns (fs.foldl (fun (acc : AHeap × List Nat) e => ((flattenField acc.1 e).1, acc.2 ++ [(flattenField acc.1 e).2])) acc).1.assigns ∧
+          ∀ x ∈ (fs.foldl (fun (acc : AHeap × List Nat) e => ((flattenField acc.1 e).1, acc.2 ++ [(flattenField acc.1 e).2])) acc).2, n ≤ x := by
+        intro fs
+        induction fs with
+        | nil => intro acc hl hx; exact ⟨ListFr.refl hl, hx⟩
+        | cons f fs ihf =>
+          intro acc hl hx
+          simp only [List.foldl_cons]
+          have ff := flattenField_fr acc.1 f
+          have f1 : ListFr n acc.1.assigns (flattenField acc.1 f).1.assigns := listFr_weaken hl ff.1
+          have r := ihf ((flattenField acc.1 f).1, acc.2 ++ [(flattenField acc.1 f).2]) f1.1 (by
+            intro x hx'
+            simp only [List.mem_append, List.mem_singleton] at hx'
+            rcases hx' with hx' | rfl
+            · exact hx x hx'
+            · rw [ff.2]; exact hl)
+          exact ⟨f1.trans r.1, r.2⟩
+      simp only
+      have s := hfold (fields a) (h, []) hn (by intro x hx; cases hx)
+      have r := ih _ s.1.1
+      refine ⟨s.1.trans r.1, ?_⟩
+      intro x hx
+      simp only [List.mem_append] at hx
+      rcases hx with hx | hx
+      · exact Or.inr (s.2 x hx)
+      · rcases r.2 x hx with m | m
+        · exact Or.inl (List.mem_cons_of_mem _ m)
+        · exact Or.inr m
+
+theorem bgStmtCopy_fr (h : List StmtObj) (st : Nat) :
+    ListFr h.length h (bgStmtCopy h st).1 ∧ (bgStmtCopy h st).2 = h.length := by
+  unfold bgStmtCopy
+  have l1 : ListFr h.length h (h ++ [h.getD st {}]) := listFr_append _ _ (Nat.le_refl _)
+  exact ⟨(l1.trans (listFr_set _ _ l1.1 (Nat.le_refl _))).trans (listFr_set _ _ (by simp) (Nat.le_refl _)), rfl⟩
 
 end ShVerif.C29
